@@ -108,7 +108,11 @@ class Trainer:
             self.clusterer.fit(u, weights_trimmed)
             labels = self.clusterer.predict(u)
             mode_stats = ModeStatistics.from_particles(
-                u, weights_trimmed, labels, dof_fallback=self.DOF_FALLBACK
+                u,
+                weights_trimmed,
+                labels,
+                dof_fallback=self.DOF_FALLBACK,
+                n_modes=self.clusterer.n_clusters_,
             )
         elif self.clustering and not refit:
             # Use previous clustering - return existing mode_stats
@@ -117,7 +121,11 @@ class Trainer:
             u = self.state.get_history("u", flat=True)[trim_idx]
             labels = self.clusterer.predict(u)
             mode_stats = ModeStatistics.from_particles(
-                u, weights_trimmed, labels, dof_fallback=self.DOF_FALLBACK
+                u,
+                weights_trimmed,
+                labels,
+                dof_fallback=self.DOF_FALLBACK,
+                n_modes=self.clusterer.n_clusters_,
             )
         else:
             # No clustering - fit global Student-t distribution
